@@ -40,7 +40,10 @@ let show_obs o =
   " | A " ^ show_ostr o.o_label ^ " " ^ show_ostr o.o_unit ^ " " ^
   (match o.o_data with Some l -> show_list enc_dbl l | None -> "-")
 
+let show_cell c = match c with CI z -> Zar.to_string (zarith_of_z z) | CD d -> enc_dbl d | CS s -> show_str s
+
 let show_ans a = match a with
+  | ACells l -> show_list show_cell l
   | ADone -> "-"
   | AIndex i -> string_of_z i
   | ABool b -> bool01 b
@@ -77,7 +80,14 @@ let rec take n l = if n = 0 then [] else match l with x :: r -> x :: take (n - 1
 let counted l = match l with n :: r -> OLst.map str (take (oint_of_string n) r) | [] -> failwith "count expected"
 let z = z_of_string
 
-let handle toks = match toks with
+let parse_kind k = match k with "S" -> KSampled | "T" -> KSet | "R" -> KRange | "F" -> KFrame | _ -> failwith "bad kind"
+
+(* a via<k> prefix only changes the public route by which the harness obtains the dimension handle *)
+let strip_route toks = match toks with
+  | v :: rest when OStr.length v = 4 && OStr.sub v 0 3 = "via" -> rest
+  | _ -> toks
+
+let rec handle toks = match strip_route toks with
   | "new" :: dt :: rank :: len :: nfr :: rest ->
     let t = parse_dtype dt in
     let rec frames k rest = if k = 0 then ([], rest) else
@@ -99,6 +109,11 @@ let handle toks = match toks with
     "OK -"
   | ["reopen"; m] -> run (Reopen (m = "ro"))
   | ["observe"] -> run Observe
+  | ["s_at"; i; k] -> run (SAt (z i, z k))
+  | ["r_at"; i; k] -> run (RTickAt (z i, z k))
+  | ["dims_f"; k] -> run (DimsOfKind (parse_kind k))
+  | ["range_of_array"] -> run RangeOfArray
+  | ["f_ticks"; i; c; rs; vs; off] -> run (FTicks (z i, (if c = "-" then None else Some (z c)), rs = "1", z vs, z off))
   | ["drop_b2"] -> run DropForeignBlock
   | ["recreate"; k] -> run (RecreateFrame (nat_of_int (oint_of_string k)))
   | "append_set" :: r -> run (AppendSet (counted r))
